@@ -6,7 +6,7 @@ from vp import core, mmd, pmap
 BODIES = [b"", b"para text\n", b"a & b < c > d \"q\" 'z'\n", b"tab\there  two  spaces \n", b"* l1\n* l2\n", b"    code <x> & y\n", b"```\nf & <g>\n```\n", b"line1\nline2\n\nsecond para\n",
           b"&amp; &lt; &#10; &quot; literal entities\n", b"caf\xc3\xa9 \xe2\x80\xa0 \xf0\x9f\x98\x80\n", b"    code\n\n  \n", b"text\n \n\t\n"]
 STYLES = ["atx", "closed", "setext"]
-METAS = [b"", b"Title: My Title\n", b"Title: T & <x> \"q\"\nAuthor: Some One\n"]
+METAS = [b"", b"Title: My Title\n", b"Title: T & <x> \"q\"\nAuthor: Some One\n", b"Title: B\nBase Header Level: 2\n", b"Base Header Level: 3\nmy key: v: w\n"]
 PRE = [b"", b"preamble text & more\n"]
 
 def level_seqs(n):
@@ -70,7 +70,7 @@ def cases_list(tier):
             for bods in itertools.product(bsets, repeat=n):
                 for m in range(len(METAS)):
                     for pr in range(len(PRE)):
-                        if n >= 3 and (m == 1): continue
+                        if n >= 3 and (m in (1, 4)): continue
                         out.append((seq, styles, bods, m, pr))
     return out
 
